@@ -338,10 +338,13 @@ def gen_rails_scenario(d, tier):
     for t, turn in enumerate(sc["convs"][0]["turns"]):
         sc["llm_body"][turn["tok"]] = d.choice(RAILS_BODIES, "body", t)
         sc["llm_tail"][turn["tok"]] = d.choice(RAILS_TAILS, "tail", t)
-        if d.chance(0.6, "free", t):
+        if d.chance(0.45, "free", t):
             sc["intents"][turn["tok"]] = "free"  # LLM-made message instead of a predefined one
     n = 10 if tier == "quick" else 40
-    sc["chunkings"] = ["whole", "chars"] + [["cuts", d.randint(0, 1 << 30, "ck", k), d.choice([0.05, 0.15, 0.3, 0.6], "dens", k)] for k in range(n - 2)]
+    # a chunking = where the text is cut + when the tokens arrive (latency before the first token, gap between tokens):
+    # the same text may be completely delivered before the pipeline looks at it, or trickle in while it already forwards it
+    sc["chunkings"] = ["whole", "chars"] + [["cuts", d.randint(0, 1 << 30, "ck", k), d.choice([0.05, 0.15, 0.3, 0.6], "dens", k),
+                                            d.choice([0.0, 0.0, 0.01, 0.5], "lat", k), d.choice([0.0, 0.0, 0.001, 0.05], "gap", k), d.choice([0.0, 0.0, 0.25], "alat", k)] for k in range(n - 2)]
     sc["family"] = "rails"
     return sc
 
@@ -353,7 +356,7 @@ def _chunker_for(spec):
         return lambda call, reply: [reply]
     if spec == "chars":
         return lambda call, reply: list(reply)
-    _, seed, dens = spec
+    seed, dens = spec[1], spec[2]
     dd = Draws(seed)
 
     def chunker(call, reply):
@@ -379,8 +382,12 @@ def _serve_streaming(sc, chunking):
     seams.install(ctx)
     seams.reset_run_state(ctx)
     try:
-        world = R.RailsWorld(sc, loop_clock=clock, latency=lambda call: 0.0, action_latency=lambda kind, name, n: 0.0)
+        lat = chunking[3] if isinstance(chunking, list) and len(chunking) > 3 else 0.0
+        gap = chunking[4] if isinstance(chunking, list) and len(chunking) > 4 else 0.0
+        alat = chunking[5] if isinstance(chunking, list) and len(chunking) > 5 else 0.0  # a slow dialog action: the LLM stream ends before the pipeline takes it over
+        world = R.RailsWorld(sc, loop_clock=clock, latency=lambda call: lat, action_latency=lambda kind, name, n: alat)
         world.llm_world.chunker = _chunker_for(chunking)
+        world.llm_world.chunk_gap_fn = lambda call, i: gap
         turns = []
 
         async def main(loop):
@@ -434,8 +441,14 @@ def execute_rails(sc):
     for chunking in sc["chunkings"]:
         try:
             turns, tasks = _serve_streaming(sc, chunking)
-        except control.SimControl:
-            raise
+        except control.SimDeadlock as e:
+            out.evaluations += 1
+            where = next((str(t) for t in e.parked if "generate_async" in str(t)), "?")
+            tr.log("chunking", chunking if isinstance(chunking, str) else chunking[1:], "deadlock")
+            out.violate("stream-never-ends", "%s:%s" % (cfg, where.split(" > ")[-2] if " > " in where else "?"),
+                        "mode %s (LLM bodies %r, tails %r): with the LLM reply streamed as %r generate_async never returns and the caller's stream never ends - nothing is scheduled any more; parked at %s. "
+                        "Other token timings of the same text complete." % (sc["mode"], sc["llm_body"], sc["llm_tail"], chunking, where[-300:]))
+            continue
         out.evaluations += 1
         tr.log("chunking", chunking if isinstance(chunking, str) else chunking[1:], [(a, b, c) for a, b, c, _ in turns])
         if any(t[2] != "ok" for t in turns):
